@@ -400,7 +400,13 @@ func (fc *funcContext) translateExpr(expr ast.Expr) *expression {
 					if isUnsigned(basic) {
 						shift = ">>>"
 					}
-					return fc.formatExpr(`(%1s = %2e / %3e, (%1s === %1s && %1s !== 1/0 && %1s !== -1/0) ? %1s %4s 0 : $throwRuntimeError("integer divide by zero"))`, fc.newLocalVariable("_q"), e.X, e.Y, shift)
+					quo := fc.formatExpr(`(%1s = %2e / %3e, (%1s === %1s && %1s !== 1/0 && %1s !== -1/0) ? %1s %4s 0 : $throwRuntimeError("integer divide by zero"))`, fc.newLocalVariable("_q"), e.X, e.Y, shift)
+					switch basic.Kind() {
+					case types.Int8, types.Int16:
+						// The most negative value divided by -1 overflows and wraps around.
+						return fc.fixNumber(quo, basic)
+					}
+					return quo
 				}
 				if basic.Kind() == types.Float32 {
 					return fc.fixNumber(fc.formatExpr("%e / %e", e.X, e.Y), basic)
